@@ -60,6 +60,8 @@ Record table := mkTable {
   t_csr_key_groups : bool;  (* cache key of __Get_csr_map contains the contributing groups *)
   t_csr_key_ndof : bool;    (* ... and Ndof *)
   t_mass_key_group : bool;  (* cache key of HyperElastic.__Mass_e contains the group *)
+  t_param_get_copies : bool;  (* a parameter is never handed out as the stored mutable object: _Parameter.__get__ returns a
+                                 copy (or __set__ stores one), so `a.p *= 3` cannot edit in place an array another object holds *)
   t_param_set_unconditional : bool; (* _Parameter.__set__ raises Need_Update WITHOUT comparing the assigned object with the
                                        stored one: re-assigning the same array object after an in-place edit still notifies *)
   t_model_cache_refresh : bool (* every reader of a derived quantity cached ON the model (e.g. sqrt(C), sqrt(S) of an
@@ -76,7 +78,7 @@ Definition table_ok (T : table) : bool :=
   not_never (t_bcinit T) && not_never (t_dirichlet T) && not_never (t_lagrange T) &&
   t_newton_need T && t_pf_need_d T && t_pf_need_u T && t_pf_setiter_d T && t_pf_setiter_u T &&
   t_pf_dmg_inval_u T && t_pf_el_inval_d T && t_csr_key_groups T && t_csr_key_ndof T &&
-  t_mass_key_group T && t_param_set_unconditional T && t_model_cache_refresh T.
+  t_mass_key_group T && t_param_get_copies T && t_param_set_unconditional T && t_model_cache_refresh T.
 
 (* ---- state ------------------------------------------------------------------------- *)
 Record meshS := mkMesh { pose : N; shape : N; gtag : option N }.
@@ -279,6 +281,7 @@ Inductive op :=
 | OGeoRead (m : nat)
 | ONewSim (k : kind) (m : nat)
 | ORho (i : nat) | ORay (i : nat)
+| ORhoAug (i j : nat)   (* `sims[i].rho *= c` while simulation j was given the SAME array object *)
 | OSetMesh (i m : nat)
 | OBcInit (i : nat) | ODirichlet (i : nat) (n : N) | ONeumann (i : nat) | OLagrange (i : nat)
 | OAlgo (i : nat) (a : N)
@@ -317,6 +320,14 @@ Definition step (T : table) (w : world) (o : op) : world :=
   | ORho i => on_sim w i (fun s =>
         let s1 := set_cf s (mkCfg (cur (cf s)) (tick w) (ray (cf s)) (nlag (cf s)) (ndir (cf s)) (algo (cf s)) (solU (cf s)) (solD (cf s))) in
         if t_rho_need T then raise T s1 else s1)
+  | ORhoAug i j =>
+      let w1 := on_sim w i (fun s =>
+        let s1 := set_cf s (mkCfg (cur (cf s)) (tick w) (ray (cf s)) (nlag (cf s)) (ndir (cf s)) (algo (cf s)) (solU (cf s)) (solD (cf s))) in
+        if t_rho_need T then raise T s1 else s1) in
+      if t_param_get_copies T then w1
+      else (* the in-place multiply reached the array simulation j holds: its contents changed, nobody told it *)
+        mkW (clock w1) (par w1) (mcache w1) (meshes w1)
+            (upd_nth j (fun s => set_cf s (mkCfg (cur (cf s)) (tick2 w) (ray (cf s)) (nlag (cf s)) (ndir (cf s)) (algo (cf s)) (solU (cf s)) (solD (cf s)))) (sims w1))
   | ORay i => on_sim w i (fun s =>
         let s1 := set_cf s (mkCfg (cur (cf s)) (rho (cf s)) (tick w) (nlag (cf s)) (ndir (cf s)) (algo (cf s)) (solU (cf s)) (solD (cf s))) in
         if t_ray_need T then raise T s1 else s1)
@@ -400,10 +411,10 @@ Definition flag_of (T : table) (id : nat) : bool :=
   | 28 => t_pf_setiter_u T | 29 => t_pf_dmg_inval_u T | 30 => t_pf_el_inval_d T
   | 31 => t_csr_key_groups T | 32 => t_csr_key_ndof T | 33 => t_mass_key_group T
   | 34 => t_model_cache_refresh T | 35 => t_meshset_initsols T | 36 => t_param_set_unconditional T
-  | 37 => t_meshset_keeps_old T
+  | 37 => t_meshset_keeps_old T | 38 => t_param_get_copies T
   | _ => true
   end.
-Definition all_ids : list nat := seq 1 37.
+Definition all_ids : list nat := seq 1 38.
 Definition failing (T : table) : list nat := filter (fun id => negb (flag_of T id)) all_ids.
 
 (* the table with the flags listed in [off] switched off (everything else as the property needs) *)
@@ -414,7 +425,7 @@ Definition mk_table (off : list nat) : table :=
           (on 18) (on 40) (on 19) (on 37) (on 35) (on 20) (on 41)
           (if on 21 then NIfLag else NNever) (if on 22 then NIfLag else NNever) NNever
           (if on 23 then NAlways else NNever) true (on 24) (on 25) (on 26) (on 27) (on 28) (on 29) (on 30)
-          (on 31) (on 32) (on 33) (on 36) (on 34).
+          (on 31) (on 32) (on 33) (on 38) (on 36) (on 34).
 Definition good_table : table := mk_table [].
 
 (* a model-level witness (op list) for every flag: run with that flag off, some simulation is stale *)
@@ -448,6 +459,7 @@ Definition witness (id : nat) : list op :=
   | 34 => [pfs; OGetK 0 false; OParam true]
   | 35 => [lin; OSolve 0; ONewMesh; OSetMesh 0 1]
   | 36 => [lin; OGetK 0 false; OParamArr false true]
+  | 38 => [lin; lin; ORho 0; ORho 1; OGetK 0 false; OGetK 1 false; ORhoAug 0 1]
   | 37 => [lin; OSaveIter 0; ONewMesh; OSetMesh 0 1; OSetIter 0 0; OGetK 0 false; OMeshMove 0 MRotate]
   | _ => []
   end.
